@@ -189,26 +189,22 @@ func (b *Batch) Delete(key []byte) error {
 }
 
 func (b *Batch) Commit() error {
-	// 已提交的批处理不再持有 DB 锁, 不允许重复解锁
-	b.mu.RLock()
+	b.mu.Lock()
+	defer b.mu.Unlock()
+
+	// 已提交的批处理不再持有 DB 锁, 不允许重复解锁.
+	// 必须在持有批处理锁时判断并标记: 并发的两次 Commit 否则都会通过判断, 各自释放一次 DB 锁.
+	// 无论本次提交是否成功 DB 锁都会被释放, 批处理不能再被使用
 	if b.committed {
-		b.mu.RUnlock()
 		return ErrBatchCommitted
 	}
-	b.mu.RUnlock()
+	b.committed = true
 
 	// 提交后允许操作 DB 实例
 	defer b.db.mu.Unlock()
 
-	b.mu.Lock()
-	defer b.mu.Unlock()
-
 	if len(b.staged) == 0 {
-		b.committed = true
 		return nil
-	}
-	if b.committed {
-		return ErrBatchCommitted
 	}
 
 	err := b.flushStaged()
